@@ -18,10 +18,12 @@ import json
 from .. import core, tlaval
 
 TEXTS = {'latin1': 'caf\xe9 \xfc', 'utf-8': 'caf\xe9 日本', 'cp1252': '€ caf\xe9',
-         'shift_jis': '日本語', 'utf-16': '\xe9 日'}
+         'shift_jis': '日本語', 'utf-16': '\xe9 日',
+         # encodings whose bytes can all be below 0x80 without being ASCII text
+         'utf-16-le': 'Piano 1', 'iso2022_jp': '日本語 abc'}
 UNDECODABLE = {'utf-8': b'\xff\xfe\xfa', 'shift_jis': b'\x81', 'utf-16': b'\x00\xd8\x00',
-               'cp1252': b'\x81'}
-UNENCODABLE = {'latin1': '日', 'cp1252': '日', 'shift_jis': '\xe9'}
+               'cp1252': b'\x81', 'utf-16-le': b'\x00\xd8\x00', 'iso2022_jp': b'\xff'}
+UNENCODABLE = {'latin1': '日', 'cp1252': '日', 'shift_jis': '\xe9', 'iso2022_jp': '\xe9'}
 
 
 def vlq(n):
@@ -91,10 +93,18 @@ def run_call(kind, cs, fault, at):
         datas, realised = build_load(cs, fault, at)
         for data in datas:
             ok = True
+            inside = None
             try:
                 mid = mido.MidiFile(file=io.BytesIO(data), charset=use_cs)
-            except Exception:
+            except Exception as exc:
                 ok = False
+                inside = elsewhere()       # while the exception (and its traceback) is alive
+                del exc
+            if inside:
+                probs.append(('charset-leak/load/in-handler',
+                              'inside the except handler after load(charset=%r, fault %s at %d): %s' % (
+                                  use_cs, fault, at, inside)))
+                break
             if ok and fault in ('none',) or (ok and not realised):
                 texts = [m.text for m in mid.tracks[0] if m.type == 'text']
                 if texts != [TEXTS[cs]] * 3:
@@ -130,10 +140,17 @@ def run_call(kind, cs, fault, at):
             realised = True
         buf = io.BytesIO()
         ok = True
+        inside = None
         try:
             mid.save(file=buf)
-        except Exception:
+        except Exception as exc:
             ok = False
+            inside = elsewhere()           # while the exception (and its traceback) is alive
+            del exc
+        if inside:
+            probs.append(('charset-leak/save/in-handler',
+                          'inside the except handler after save(charset=%r, fault %s at %d): %s' % (
+                              use_cs, fault, at, inside)))
         if ok and realised and fault != 'none':
             probs.append(('fault-not-raised/%s' % fault, 'save with %s at %d succeeded' % (fault, at)))
         if ok and (fault == 'none' or not realised):
